@@ -615,8 +615,7 @@ family_chunked(void)
 static void
 case_budget(int seconds)
 {
-    mc.tick_idx = mc.cur;                    /* this order: see mc_tick() */
-    mc.tick_same = MC_HANG_TICKS - seconds;
+    mc_budget(seconds);
 }
 
 #define HUGE_HEAD 4098u
